@@ -61,3 +61,61 @@ REG.fn(F, "UnionFind.component_count", prop="C20",
 
 REG.fn(F, "UnionFind.__len__", prop="C20",
        requires=["uf_inv(self)"], ensures=["result == len(self._parent)"])
+
+# ------------------------------------------------------------------ FenwickTree
+# up(i) = i | (i+1), lo(i) = i & (i+1) (recognised syntactically by the translator, bridge A9).
+# cov(j, x) := lo(j) <= x <= j  ("node j covers position x").  Lemmas are proved at BV64 on every run.
+REG.deffn("cov", ["j", "x"], "lo(j) <= x and x <= j", group="fenwick")
+REG.lemma("lo_le", ["i"], "0 <= lo(i) and lo(i) <= i", kind="bv64", group="fenwick", trig=["lo(i)"])
+REG.lemma("up_gt", ["i"], "up(i) > i", kind="bv64", group="fenwick", trig=["up(i)"])
+REG.lemma("between_not_cov", ["i", "j", "x"],
+          "implies(cov(i, x) and i < j and j < up(i), not cov(j, x))",
+          kind="bv64", group="fenwick", trig=["cov(i, x)", "cov(j, x)"])
+REG.lemma("beyond_cov", ["i", "j", "x"],
+          "implies(cov(i, x) and j >= up(i), iff(cov(j, x), cov(j, up(i))))",
+          kind="bv64", group="fenwick", trig=["cov(i, x)", "cov(j, x)"])
+
+REG.cls(F, "FenwickTree", fields={"_tree": "list[real]", "_n": "int"}, ghost={"S": "map[int,real]"})
+
+# S = ghost prefix sums of the abstract array a[k] = S[k+1] - S[k]
+REG.define("ft_inv", ["self"], [
+    "0 <= self._n < 4611686018427387904",
+    "len(self._tree) == self._n",
+    "self.S[0] == 0",
+    "forall(j, implies(0 <= j < self._n, self._tree[j] == self.S[j + 1] - self.S[lo(j)]), trig=self._tree[j])",
+])
+
+REG.fn(F, "FenwickTree.__init__", prop="C20", variants=[{"values": "int"}],
+       requires=["0 <= values < 4611686018427387904"],
+       ensures=["ft_inv(self)", "self._n == values", "forall(k, self.S[k] == 0)"],
+       modifies=["self._tree", "self._n", "self.S"],
+       ghost_return={"self.S": "lam(k, 0.0)"}, lemmas=["fenwick"])
+
+REG.fn(F, "FenwickTree.update", prop="C20", types={"delta": "real"},
+       requires=["0 <= i < self._n", "ft_inv(self)"],
+       ensures=["ft_inv(self)", "self._n == old(self._n)",
+                # the abstract array changes at position i only: S'[k] = S[k] + delta*[k > i]
+                "forall(k, self.S[k] == old(self.S[k]) + (delta if k > old(i) else 0))"],
+       modifies=["self._tree", "self.S"],
+       ghost_return={"self.S": "lam(k, old(self.S)[k] + (delta if k > old(i) else 0))"},
+       lemmas=["fenwick"],
+       loops={1: LoopSpec(invariants=[
+           "i >= old(i)", "len(self._tree) == self._n",
+           "i >= self._n or cov(i, old(i))",
+           "forall(j, implies(0 <= j < self._n and j < i, self._tree[j] == old(self._tree)[j] + (delta if cov(j, old(i)) else 0)), trig=self._tree[j])",
+           "forall(j, implies(0 <= j < self._n and j >= i, self._tree[j] == old(self._tree)[j]), trig=self._tree[j])",
+       ], decreases="self._n - i")})
+
+REG.fn(F, "FenwickTree.prefix", prop="C20",
+       requires=["-1 <= i < self._n", "ft_inv(self)"],
+       ensures=["result == self.S[i + 1]"],
+       lemmas=["fenwick"],
+       loops={1: LoopSpec(invariants=["-1 <= i <= old(i)", "total == self.S[old(i) + 1] - self.S[i + 1]"],
+                          decreases="i + 1")})
+
+REG.fn(F, "FenwickTree.range_sum", prop="C20",
+       requires=["0 <= left <= self._n", "-1 <= right < self._n", "ft_inv(self)"],
+       ensures=["result == self.S[right + 1] - self.S[left]"],
+       lemmas=["fenwick"])
+
+REG.fn(F, "FenwickTree.__len__", prop="C20", requires=["ft_inv(self)"], ensures=["result == self._n"])
